@@ -108,6 +108,31 @@ pub fn mirror_scenario(prop: &str, seed: u64, index: u64) -> Option<Scenario> {
         ..Default::default()
     };
     let mut scn = gen::base(&mut rng, prop, seed, index, &o);
+    // A third of the rotation cones get a grossly non-unit centre (the stored quaternion scaled
+    // by 1.25 or 2): the constructors do not normalise, every bounds primitive uses the centre
+    // as stored, and the cone only gets larger (so start, goal and obstacles stay inside). Both
+    // sides must plan in the same — odd — space.
+    if prop == "C19" && rng.chance(0.33) {
+        let k = *rng.pick(&[1.25, 2.0]);
+        let scale = |b: &mut Option<([f64; 4], f64)>| {
+            if let Some((c, _)) = b {
+                for x in c.iter_mut() {
+                    *x *= k;
+                }
+            }
+        };
+        match &mut scn.space {
+            SpaceSpec::SO3 { bounds, .. } => scale(bounds),
+            SpaceSpec::Compound { parts, .. } => {
+                for p in parts.iter_mut() {
+                    if let SpaceSpec::SO3 { bounds, .. } = p {
+                        scale(bounds);
+                    }
+                }
+            }
+            _ => {}
+        }
+    }
     // only what the Python API can express
     match &mut scn.space {
         SpaceSpec::SE2 { native, frac_t, frac_r, .. } => {
